@@ -829,6 +829,14 @@ class Tr:
             args = " ".join(self.e(a) for a in s.value.args)
             self.types[x] = "obj"
             return f"{ind}match {fn} {args} with\n{ind}| .error e => .error ({wrap} e)\n{ind}| .ok {x} =>\n" + self.block(rest, ind + "  ")
+        if (isinstance(s, ast.Assign) and len(s.targets) == 1 and isinstance(s.targets[0], ast.Tuple) and isinstance(s.value, ast.Tuple)
+                and len(s.targets[0].elts) == len(s.value.elts) and all(isinstance(x, ast.Name) for x in s.targets[0].elts)):
+            # `a, b = x, y`: Python evaluates the right-hand side first; translated as consecutive bindings when no target occurs on the right
+            names = {x.id for x in s.targets[0].elts}
+            if any(isinstance(y, ast.Name) and y.id in names for v in s.value.elts for y in ast.walk(v)):
+                raise Unsupported("parallel assignment whose right-hand side mentions a target")
+            parts = [ast.copy_location(ast.Assign(targets=[x], value=v), s) for x, v in zip(s.targets[0].elts, s.value.elts)]
+            return self.block(parts + list(rest), ind)
         if isinstance(s, ast.Assign) and len(s.targets) == 1:
             t = s.targets[0]
             d = self.dotted(t)
@@ -1485,6 +1493,14 @@ def _header_only_response(tr, n):
     return "(Cl.headerResponse s)"
 
 
+def _rejection_response(tr, n):
+    """`GeminiResponse(status=status, meta=meta)` of `_send_middleware_rejection`: a response without body"""
+    kw = {k.arg: k.value for k in n.keywords}
+    if n.args or set(kw) != {"status", "meta"}:
+        raise Unsupported("rejection response must be GeminiResponse(status=..., meta=...)")
+    return f"(Srv.mkResp {tr.e(kw['status'])} {tr.e(kw['meta'])})"
+
+
 def _static_response(tr, n):
     """`GeminiResponse(status=…, meta=…[, body=…])` of StaticFileHandler.handle as a constructor of Fs.SResp"""
     kw = {k.arg: k.value for k in n.keywords}
@@ -1768,6 +1784,23 @@ SPECS = [
          truthy_objs=("self.titan_request",),
          world_ops={"self._send_error_response": dict(fn="E.sendError", ret=None), "self._start_titan_upload": dict(fn="E.startUpload", ret=None, args=False),
                     "asyncio.create_task": dict(fn="E.startMwT", ret="obj", args=False)}),
+    dict(name="sendMwRejection", file="server/protocol.py", cls="GeminiServerProtocol", func="_send_middleware_rejection", state="s", thread="s", implicit_return=True,
+         header="def sendMwRejection (E : Srv.RejEnv) (error_response : Option (List Char)) (s : Srv.PState) : Srv.PState × Unit :=", state_type="Srv.PState",
+         # assumed about Python and nothing else: str.removesuffix / str.partition(" ") (`Srv.dropCRLF`, `Srv.part`), and `len(t) == 2 and t.isascii() and
+         # t.isdigit()` / `int(t)` on the status token (`Srv.twoDigits`, `Srv.intOf`)
+         skip_src=("code, _, text = line.partition(' ')",), rename_reserved=True,
+         opaque={"isinstance(error_response, str)": "error_response.isSome",
+                 "error_response.removesuffix('\\r\\n')": "(Srv.dropCRLF (error_response.getD []))",
+                 "code": "(Srv.part line).1", "text": "(Srv.part line).2",
+                 "len(code) == 2 and code.isascii() and code.isdigit()": "(Srv.twoDigits (Srv.part line).1)",
+                 "int(code)": "(Srv.intOf (Srv.part line).1)",
+                 "20 <= int(code) <= 29": "(decide (20 ≤ Srv.intOf (Srv.part line).1) && decide (Srv.intOf (Srv.part line).1 ≤ 29))",
+                 "StatusCode.TEMPORARY_FAILURE.value": "40", "'Request refused'": "Srv.refusedText"},
+         types={"isinstance(error_response, str)": "bool", "error_response.removesuffix('\\r\\n')": "str", "code": "str", "text": "str", "line": "str",
+                "len(code) == 2 and code.isascii() and code.isdigit()": "bool", "int(code)": "num", "20 <= int(code) <= 29": "bool",
+                "StatusCode.TEMPORARY_FAILURE.value": "num", "'Request refused'": "str", "status": "num", "meta_": "str", "error_response": "optstr"},
+         call_hooks={"GeminiResponse": _rejection_response},
+         world_ops={"self._send_response": dict(fn="E.sendResponse", ret=None)}),
     dict(name="handleMwResult", file="server/protocol.py", cls="GeminiServerProtocol", func="_handle_middleware_result", state="s", thread="s", implicit_return=True,
          header="def handleMwResult (E : Srv.MwEnv) (titan : Bool) (s : Srv.PState) : Srv.PState × Unit :=", state_type="Srv.PState",
          try_calls={"result": dict(fn="E.taskResult", nargs=0, handlers=[(("Exception", "asyncio.CancelledError"), ".error _")], rtype=("bool", "optstr"))},
@@ -1893,7 +1926,7 @@ PRELUDE = {
     "uploadGate": ([], []),
     "followRedirects": (["NauyacaVerif.Cl.Redirect"], []),
     "dataReceived": (["NauyacaVerif.Srv.PState"], []),
-    "handleMwResult": (["NauyacaVerif.Srv.PState"], []), "handleHandlerResult": (["NauyacaVerif.Srv.PState"], []), "handleUploadResult": (["NauyacaVerif.Srv.PState"], []),
+    "handleMwResult": (["NauyacaVerif.Srv.PState"], []), "sendMwRejection": (["NauyacaVerif.Srv.PState"], []), "handleHandlerResult": (["NauyacaVerif.Srv.PState"], []), "handleUploadResult": (["NauyacaVerif.Srv.PState"], []),
     "handleGeminiRequest": (["NauyacaVerif.Srv.PState"], []), "processTitanUpload": (["NauyacaVerif.Srv.PState"], []),
     "staticHandle": (["NauyacaVerif.Fs.StaticPy"], []),
     "pumpResponse": (["NauyacaVerif.Srv.FlowPy"], []), "resumeWriting": (["NauyacaVerif.Srv.FlowPy", "NauyacaVerif.Gen.Fn.PumpResponse"], []),
